@@ -433,7 +433,7 @@ def enumInteger (bits : List String) (i : Nat) : List (Key × Bool) :=
   (List.range bits.length).zip bits |>.map fun (k, b) => (Key.name b, (i >>> k) % 2 == 1)
 
 /-- `bdd.assert_consistent()` (non-terminal part; the terminal is implicit in the model) -/
-def assertConsistent : M Unit := fun m =>
+def bddAssertConsistent : M Unit := fun m =>
   let t := m.tbl
   if !m.roots.all (fun r => t.mem r) then (.error .assertion, m) else
   -- inverses / uniqueness
@@ -568,7 +568,7 @@ def bddToMdd (dvars : List MVar) (levRec : Option (List Nat)) : M B2MOut := fun 
   | (.error e, mb1) => (.error e, mb1)
   | (.ok p, mb1) =>
     -- build layer by layer
-    match assertConsistent mb1 with
+    match bddAssertConsistent mb1 with
     | (.error e, mb2) => (.error e, mb2)
     | (.ok _, mb2) =>
       match bddLevelsOrder p.tbl levRec with
